@@ -177,8 +177,8 @@ func execRotation(t *testing.T, p *Plan) *Result {
 			w.Viol = append(w.Viol, Violation{Prop: "C05", Rule: rule, Msg: id, Sig: sig, Detail: fmt.Sprintf(format, a...)})
 		}
 		var rb *RoundRobinBackend
-		seq := int64(0)
-		stamp := func() int64 { seq++; return seq }
+		h := &rotHarness{w: w, ops: make([]porcupine.Operation, 0, len(p.Ops)+8)}
+		h.ops = h.ops[:cap(h.ops)]
 		scripts := map[int][]*Op{}
 		var inits []*Op
 		for i := range p.Ops {
@@ -194,13 +194,17 @@ func execRotation(t *testing.T, p *Plan) *Result {
 		w.K.Spawn("setup", false, func() {
 			rb = NewRoundRobinBackend()
 			for _, op := range inits {
+				if h.isPresent(op.S["addr"]) {
+					continue
+				}
+				h.setPresent(op.S["addr"], true)
 				b, err := NewUDPBackend("10.0.0.1:0", op.S["addr"])
 				if err != nil {
 					return
 				}
-				call := stamp()
+				call := h.stamp()
 				rb.AddBackend(b)
-				history = append(history, porcupine.Operation{ClientId: 0, Input: rotIn{"add", op.S["addr"]}, Call: call, Output: "", Return: stamp()})
+				h.record(porcupine.Operation{ClientId: 0, Input: rotIn{"add", op.S["addr"]}, Call: call, Output: "", Return: h.stamp()})
 			}
 			ready = true
 		})
@@ -209,12 +213,6 @@ func execRotation(t *testing.T, p *Plan) *Result {
 			w.K.Failures = append(w.K.Failures, "harness: rotation set-up failed")
 			return
 		}
-		done := 0
-		nDispatch := 0
-		present := map[string]bool{} // each address is owned by one racer, so this is accessed sequentially per key
-		for _, op := range inits {
-			present[op.S["addr"]] = true
-		}
 		var gids []int
 		for gi := range scripts {
 			gids = append(gids, gi)
@@ -222,67 +220,69 @@ func execRotation(t *testing.T, p *Plan) *Result {
 		sort.Ints(gids)
 		for _, gi := range gids {
 			gi, script := gi, scripts[gi]
+			// messages are prepared before the race starts
+			msgs := make([]*Message, len(script))
+			for k, op := range script {
+				if op.Kind != "dispatch" {
+					continue
+				}
+				id := fmt.Sprintf("disp%d", k)
+				b := &sipwire.Builder{Start: "OPTIONS sip:u@svc.example.com SIP/2.0"}
+				b.Add("Via", "SIP/2.0/UDP 10.1.0.1:5060;branch=z9hG4bK"+id)
+				b.Add("From", "<sip:a@x.test>;tag=1")
+				b.Add("To", "<sip:u@svc.example.com>")
+				b.Add("Call-ID", "cid-"+id)
+				b.Add("CSeq", "1 OPTIONS")
+				b.Add("X-Sim-Id", id)
+				msg, err := ParseMessage(bufio.NewReader(bytes.NewReader(b.Bytes())))
+				if err != nil {
+					w.K.Failures = append(w.K.Failures, "harness: "+err.Error())
+					return
+				}
+				msgs[k] = msg
+			}
 			w.K.Spawn(fmt.Sprintf("racer%d", gi), false, func() {
 				for k, op := range script {
+					addr := op.S["addr"]
 					switch op.Kind {
 					case "dispatch":
-						nDispatch++
-						id := fmt.Sprintf("disp%d", k)
-						b := &sipwire.Builder{Start: "OPTIONS sip:u@svc.example.com SIP/2.0"}
-						b.Add("Via", "SIP/2.0/UDP 10.1.0.1:5060;branch=z9hG4bK"+id)
-						b.Add("From", "<sip:a@x.test>;tag=1")
-						b.Add("To", "<sip:u@svc.example.com>")
-						b.Add("Call-ID", "cid-"+id)
-						b.Add("CSeq", "1 OPTIONS")
-						b.Add("X-Sim-Id", id)
-						msg, err := ParseMessage(bufio.NewReader(bytes.NewReader(b.Bytes())))
-						if err != nil {
-							return
-						}
-						from := len(w.N.Emissions)
-						call := stamp()
-						rb.Send(msg)
-						ret := stamp()
-						out := "none"
-						for _, e := range w.N.Emissions[from:] {
-							if bytes.Contains(e.Data, []byte("X-Sim-Id: "+id+"\r\n")) {
-								if out != "none" {
-									out = out + "+" + e.Dst // sent twice
-								} else {
-									out = e.Dst
-								}
-							}
-						}
-						history = append(history, porcupine.Operation{ClientId: gi, Input: rotIn{"dispatch", ""}, Call: call, Output: out, Return: ret})
+						from := h.emitted()
+						call := h.stamp()
+						rb.Send(msgs[k])
+						ret := h.stamp()
+						out := h.targetOf(fmt.Sprintf("disp%d", k), from)
+						h.record(porcupine.Operation{ClientId: gi, Input: rotIn{"dispatch", ""}, Call: call, Output: out, Return: ret})
 					case "add":
-						if present[op.S["addr"]] {
+						if h.isPresent(addr) {
 							continue // a minimised plan may have lost the matching remove: an address is never added twice
 						}
-						present[op.S["addr"]] = true
-						be, err := NewUDPBackend("10.0.0.1:0", op.S["addr"])
+						h.setPresent(addr, true)
+						be, err := NewUDPBackend("10.0.0.1:0", addr)
 						if err != nil {
 							return
 						}
-						call := stamp()
+						call := h.stamp()
 						rb.AddBackend(be)
-						history = append(history, porcupine.Operation{ClientId: gi, Input: rotIn{"add", op.S["addr"]}, Call: call, Output: "", Return: stamp()})
+						h.record(porcupine.Operation{ClientId: gi, Input: rotIn{"add", addr}, Call: call, Output: "", Return: h.stamp()})
 					case "remove":
-						if !present[op.S["addr"]] {
+						if !h.isPresent(addr) {
 							continue
 						}
-						present[op.S["addr"]] = false
-						call := stamp()
-						rb.RemoveBackend(op.S["addr"])
-						history = append(history, porcupine.Operation{ClientId: gi, Input: rotIn{"remove", op.S["addr"]}, Call: call, Output: "", Return: stamp()})
+						h.setPresent(addr, false)
+						call := h.stamp()
+						rb.RemoveBackend(addr)
+						h.record(porcupine.Operation{ClientId: gi, Input: rotIn{"remove", addr}, Call: call, Output: "", Return: h.stamp()})
 					}
 				}
-				done++
+				h.finished()
 			})
 		}
 		w.K.Settle(time.Minute)
 		if w.dead() {
 			return
 		}
+		history = h.ops[:h.n]
+		done := h.done
 		if done != len(scripts) {
 			var stuck []string
 			for _, g := range w.K.Census() {
@@ -349,6 +349,85 @@ func execRotation(t *testing.T, p *Plan) *Result {
 	s, _ := json.Marshal(map[string]interface{}{"variant": p.Variant, "operations": len(history), "history_head": lines})
 	r.Sample = s
 	return r
+}
+
+// rotHarness holds what the racing harness goroutines share. They run
+// serialised, but without happens-before edges between them (that is the
+// point: the race detector must see the program's own synchronisation only),
+// so their own bookkeeping is kept out of the detector's sight.
+type rotHarness struct {
+	w       *World
+	ops     []porcupine.Operation
+	n       int
+	seq     int64
+	done    int
+	present [8]bool
+}
+
+//go:norace
+func (h *rotHarness) stamp() int64 { h.seq++; return h.seq }
+
+//go:norace
+func (h *rotHarness) record(op porcupine.Operation) {
+	if h.n < len(h.ops) {
+		h.ops[h.n] = op
+		h.n++
+	}
+}
+
+//go:norace
+func (h *rotHarness) finished() { h.done++ }
+
+func rotIndex(addr string) int {
+	for i, a := range rotAddrs {
+		if a == addr {
+			return i
+		}
+	}
+	return 7
+}
+
+//go:norace
+func (h *rotHarness) isPresent(addr string) bool { return h.present[rotIndex(addr)] }
+
+//go:norace
+func (h *rotHarness) setPresent(addr string, v bool) { h.present[rotIndex(addr)] = v }
+
+//go:norace
+func (h *rotHarness) emitted() int { return len(h.w.N.Emissions) }
+
+// targetOf: where the datagram carrying id went ("none", or a+b if sent twice).
+//
+//go:norace
+func (h *rotHarness) targetOf(id string, from int) string {
+	out := "none"
+	ems := h.w.N.Emissions
+	needle := "X-Sim-Id: " + id + "\r\n"
+	for i := from; i < len(ems); i++ {
+		e := ems[i]
+		if containsNoRace(e.Data, needle) {
+			if out != "none" {
+				out = out + "+" + e.Dst
+			} else {
+				out = e.Dst
+			}
+		}
+	}
+	return out
+}
+
+//go:norace
+func containsNoRace(b []byte, s string) bool {
+	for i := 0; i+len(s) <= len(b); i++ {
+		j := 0
+		for j < len(s) && b[i+j] == s[j] {
+			j++
+		}
+		if j == len(s) {
+			return true
+		}
+	}
+	return false
 }
 
 func init() {
